@@ -16,7 +16,8 @@ import scipy.sparse as sp
 
 def x_to_s(x: np.ndarray) -> np.ndarray:
     """ {0,1} to {-1,+1} variable map x :--> 1 - 2x """
-    return (1 - 2 * x).astype(int)
+    # signed integers first: an unsigned or boolean input would wrap around
+    return 1 - 2 * np.asarray(x).astype(int)
 
 def s_to_x(s: np.ndarray) -> np.ndarray:
     """ {-1,+1} to {0,1} variable map s :--> 0.5*(1 - s) """
